@@ -213,6 +213,11 @@ class C10(Check):
                         for devpin in ("match", "other"):
                             cs.append({"kind": "history", "platform": platform, "file": fstate,
                                        "default": default, "force": force, "devpin": devpin})
+        # a change forced at EVERY start (two and three changes on the same file)
+        for platform in ("ledger", "sgx"):
+            for fstate in ("absent", "valid", "newline"):
+                cs.append({"kind": "history", "platform": platform, "file": fstate, "default": fstate == "absent",
+                           "force": True, "devpin": "match", "force_all": True})
         for a in range(4):
             for b in range(4):
                 cs.append({"kind": "generator", "first": [a, b]})
@@ -260,7 +265,7 @@ class C10(Check):
             ctx, obs = run_once(run, case["choices"])
             check(ctx, obs)
             return vs
-        explore(run, check, stats, bound=self.bound)
+        explore(run, check, stats, bound=(self.bound - 1) if case.get("force_all") else self.bound)
         return vs
 
     def replay(self, case, choices):
@@ -379,7 +384,7 @@ class C10(Check):
                     seams = fakeserver.ManagerSeams(fs, record, rnd, environ, PIN_DIR)
                     seams.install()
                     options = types.SimpleNamespace(
-                        pin_file=PIN_FILE, force_pin_change=case["force"] and life == 0,
+                        pin_file=PIN_FILE, force_pin_change=case["force"] and (life == 0 or bool(case.get("force_all"))),
                         logconfigfilepath="x", version_one=False, host="h", port=1,
                         io_debug=False, tcpconn_host="h", tcpconn_port=1)
                     before = {"file": fs.files.get(PIN_FILE), "dev": dev.true_pin,
